@@ -321,6 +321,14 @@ private def parsePairs (c : String) : List (Nat × Nat) :=
 
 private def finite (x : Float) : Bool := !x.isNaN && !x.isInf
 
+/-- a line of the GEOMCOMP block, `name count id …`: the entry (name, declared count, ids) and the complaints (pure;
+property C08 proves that it recovers what `writeT4GeomComp` was given) -/
+def gcLine (name cnt : String) (ids : List String) : Option (String × Nat × List Nat) × List String :=
+  let (xs, es) := natItems s!"GEOMCOMP {name}" ids
+  match cnt.toNat? with
+  | some c => (some (name, c, xs), es)
+  | none => (none, es ++ [s!"GEOMCOMP {name}: bad count"])
+
 structure RState where
   file : T4File Float := {}
   pendingTr : List (Nat × (V3 Float × M3 Float)) := []
@@ -441,10 +449,11 @@ private def readLine (st : RState) (line : String) : RState :=
   | 1, _ => err st s!"COMPOSITION: unexpected line '{code}'"
   | 2, ["END_GEOMCOMP"] => { st with mode := 0 }
   | 2, name :: cnt :: ids =>
-      let (st, xs) := nats st ids s!"GEOMCOMP {name}"
-      match cnt.toNat? with
-      | some c => { st with file := { st.file with geomcomp := st.file.geomcomp ++ [(name, c, xs)] } }
-      | none => err st s!"GEOMCOMP {name}: bad count"
+      let (e, errs) := gcLine name cnt ids
+      let st := errs.foldl err st
+      match e with
+      | some g => { st with file := { st.file with geomcomp := st.file.geomcomp ++ [g] } }
+      | none => st
   | 2, _ => err st s!"GEOMCOMP: unexpected line '{code}'"
   | 3, ["END_BOUNDARY_CONDITION"] => { st with mode := 0 }
   | 3, [n] =>
